@@ -163,7 +163,84 @@ pub fn scenario(g: &mut G, ctx: &RunCtx) -> RunReport {
     if let Some((ct, _)) = &header_label {
         headers.push(((*g.pick(&["Content-Type", "content-type"])).to_string(), ct.clone().into_bytes()));
     }
-    let plan = bodyx::plan_from_payload(g, payload.clone(), headers);
+    let mut plan = bodyx::plan_from_payload(g, payload.clone(), headers);
+    // drawn last: two directed bodies (recorded tapes keep their meaning: an exhausted tape draws 0)
+    let mut payload = payload;
+    let mut api = api;
+    let mut selected = selected;
+    let mut header_label = header_label;
+    let mut body_kind = body_kind;
+    let bom_family = match g.below(14) {
+        1 => {
+            // U+FEFF as an ordinary first character: in gb18030 / GBK it is the four octets 84 31 95 33, not
+            // a byte order mark of that encoding - it belongs to the text
+            g.probe("u+feff-as-first-character-in-gb18030");
+            let label = *g.pick(&["gb18030", "gbk", "GBK", "chinese", "x-gbk"]);
+            let enc = Encoding::for_label(label.as_bytes()).unwrap();
+            payload = vec![0x84, 0x31, 0x95, 0x33];
+            payload.extend_from_slice(&encode_text(encoding_rs::GB18030, TEXTS[4]));
+            header_label = Some((format!("text/plain; charset={}", label), Some(enc)));
+            api = match g.below(4) {
+                0 => Api::Text,
+                1 => Api::TextWith(enc),
+                2 => Api::Reader(sizes(g)),
+                _ => Api::ReaderWith(enc, sizes(g)),
+            };
+            selected = Some(enc);
+            body_kind = "feff-first-character";
+            plan = bodyx::plan_from_payload(g, payload.clone(), vec![("Content-Type".to_string(), header_label.as_ref().unwrap().0.clone().into_bytes())]);
+            false
+        }
+        2 => {
+            // UTF-8: a sequence cut short that ends exactly where one read ends, and then a long run of
+            // well-formed text in the next read
+            g.probe("truncated-sequence-at-a-read-boundary-then-a-long-valid-run");
+            let mut first: Vec<u8> = TEXTS[g.usize_below(TEXTS.len())].as_bytes().to_vec();
+            first.extend_from_slice(*g.pick(&[&[0xe2u8, 0x82][..], &[0xf0, 0x9f, 0xa6][..], &[0xc3][..], &[0xe2][..], &[0xf0, 0x9f][..]]));
+            let mut second: Vec<u8> = Vec::new();
+            let unit = *g.pick(&["plain ascii run ", "åäö çé ", "日本語テキスト", "mixed a é 日 🦀 "]);
+            while second.len() < 1024 + g.usize_below(3000) {
+                second.extend_from_slice(unit.as_bytes());
+            }
+            payload = first.clone();
+            payload.extend_from_slice(&second);
+            let ct = "text/plain; charset=utf-8".to_string();
+            header_label = Some((ct.clone(), Some(encoding_rs::UTF_8)));
+            selected = Some(encoding_rs::UTF_8);
+            api = match g.below(4) {
+                0 => Api::Text,
+                1 => Api::Reader(vec![8192]),
+                2 => Api::Reader(vec![16, 9000]),
+                _ => Api::ReaderWith(encoding_rs::UTF_8, vec![64, 4096]),
+            };
+            body_kind = "truncated-then-long-valid-run";
+            // two chunks (or two segments of a length-delimited body), the boundary right after the cut sequence
+            let headers = vec![("Content-Type".to_string(), ct.into_bytes())];
+            let chunked = g.chance(1, 2);
+            let mut wire = crate::httpref::Wire::default();
+            let mut h = headers.clone();
+            let framing = if chunked { crate::httpref::Framing::Chunked } else { crate::httpref::Framing::Length };
+            if chunked {
+                h.push(("Transfer-Encoding".to_string(), b"chunked".to_vec()));
+            } else {
+                h.push(("Content-Length".to_string(), payload.len().to_string().into_bytes()));
+            }
+            wire.bytes = crate::httpref::encode_head(200, "OK", &h);
+            wire.head_len = wire.bytes.len();
+            let chunks: Vec<crate::httpref::ChunkSpec> = [first.len(), second.len()].iter().map(|n| crate::httpref::ChunkSpec { len: *n, size_line: format!("{:x}", n).into_bytes(), eol_size: b"\r\n", eol_data: b"\r\n" }).collect();
+            crate::httpref::encode_body(&mut wire, framing, &payload, if chunked { &chunks } else { &[] }, b"0", &[]);
+            // first segment: everything up to and including the cut sequence (for chunked: that chunk's data)
+            let cut = if chunked { wire.chunk_map[0].1 + first.len() } else { wire.head_len + first.len() };
+            let mut sc = crate::peers::Script::from_wire(&wire.bytes, &[cut, wire.bytes.len() - cut], crate::peers::End::Fin);
+            sc.wait_before(1, 5 * attosim::NS_PER_MS);
+            plan = bodyx::plan_from_payload(g, payload.clone(), headers);
+            plan.script = sc;
+            plan.faults.coalesce = false;
+            plan.wire = wire;
+            false
+        }
+        _ => bom_family,
+    };
     let run_api = |api: Api, _default_cs: Option<&'static Encoding>| {
         move || -> Result<String, String> {
             let mut session = attohttpc::Session::new();
